@@ -1241,6 +1241,7 @@ func (e *Engine) stringToBytes(s *State, str Term, elem types.Type) Term {
 		s.assume(Term{ax2, SBool})
 	}
 	s.heapSet(key, Store(s.heapGet(key, sort), base, arr))
+	e.noteStringBytes(base, arr, str)
 	return e.u.Define("bytes", App("mk-slice", SSlice, base, IntLit(0), n, n))
 }
 
